@@ -122,7 +122,7 @@ func (n *c07Node) render() string {
 	case cWhile:
 		return v + " = 0; while (" + v + " < $." + n.nname + ") { " + v + "++; " + body + " } print 'z" + n.id + "'; "
 	case cFor:
-		return "for (" + v + " = 0; " + v + " < $." + n.nname + "; " + v + "++) { " + body + " } print 'z" + n.id + "', " + v + "; "
+		return "for (" + v + " = 0; " + v + " < $." + n.nname + "; " + v + " = p('post" + n.id + "', " + v + " + 1)) { " + body + " } print 'z" + n.id + "', " + v + "; "
 	case cForInArr:
 		return "for (" + v + " in $.arr) { print " + v + "; " + body + " } print 'z" + n.id + "'; "
 	case cForInArr2:
@@ -169,7 +169,10 @@ func (n *c07Node) exec(c *c07Ctx) int {
 				return sigNone, done - 1 // post-expression not run after break
 			}
 			if s != sigNone && s != sigContinue {
-				return s, done
+				return s, done // nor after return / next / exit
+			}
+			if n.kind == cFor {
+				c.out += "post" + n.id + "\n" // after each completed or continued iteration
 			}
 		}
 		return sigNone, done
@@ -312,9 +315,9 @@ func VHC07Nesting() {
 	text := root.render()
 	var prog string
 	if c.inFn {
-		prog = "function t(n, v) { print n; return v }\nfunction f() { print 'f'; " + text + "print 'g'; return 1 }\n{ print 's'; r = f(); print 't', r }\n{ print 'second rule' }\nEND { print 'end' }"
+		prog = "function t(n, v) { print n; return v }\nfunction p(n, v) { print n; return v }\nfunction f() { print 'f'; " + text + "print 'g'; return 1 }\n{ print 's'; r = f(); print 't', r }\n{ print 'second rule' }\nEND { print 'end' }"
 	} else {
-		prog = "function t(n, v) { print n; return v }\n{ print 's'; " + text + "print 't' }\n{ print 'second rule' }\nEND { print 'end' }"
+		prog = "function t(n, v) { print n; return v }\nfunction p(n, v) { print n; return v }\n{ print 's'; " + text + "print 't' }\n{ print 'second rule' }\nEND { print 'end' }"
 	}
 	got, k := runProg(prog, c.doc)
 
